@@ -9,11 +9,16 @@ from pyvaporation.utils import (HeatCapacityConstants, NRTLParameters, UNIQUACCo
 from sym import Sym, var
 
 _VARS = {}
+ALT = [False]   # second pass of a family: fresh leaves (name + "_b", perturbed shadow) behind the same
+                # object names, so that any cache keyed on names / identities shows up as a changed trace
 
 
 def V(name, value):
     """memoised symbolic leaf (the same Sym object for the same name in one process,
     so that any identity- or value-keyed cache in the code under test is hit)"""
+    if ALT[0]:
+        name = name + '_b'
+        value = value * 1.0173 if value not in (0.0, 1.0) else value
     if name not in _VARS:
         _VARS[name] = var(name, value)
     _VARS[name].val = float(value)   # the shadow value may differ from case to case
